@@ -121,6 +121,14 @@ FlagOutdated(n) ==
      /\ dirty' = [m \in Node |-> m \in S \/ dirty[m]]
   /\ evald' = {} /\ raised' = FALSE /\ UNCHANGED <<gvars, val, auto, slots>>
 
+\* Node.clear_state() / `node.state = NodeState(None, True)` / a partial `model.state = {name: ...}` on a caching
+\* node: its cache entry is dropped and the node alone is flagged - its outputs keep values that are still the
+\* from-scratch ones (the inputs have not changed), so nothing else needs to be recomputed
+ClearState(n) ==
+  /\ kind[n] = "c"
+  /\ val' = [val EXCEPT ![n] = None] /\ flag' = [flag EXCEPT ![n] = TRUE] /\ dirty' = [dirty EXCEPT ![n] = TRUE]
+  /\ evald' = {} /\ raised' = FALSE /\ UNCHANGED <<gvars, auto, slots>>
+
 \* Node.update() on a single caching node of a built model (public low-level API), as coded: the node is evaluated
 \* from its inputs *as they are* and reports itself up to date afterwards.  InputsUpToDate(n) is the precondition
 \* under which this keeps the cache coherent (deviation G8: it is not checked by the code)
